@@ -9,7 +9,7 @@
 (* chunk sequence (header and body ciphertexts) of direction d, how many    *)
 (* messages the real reader returned before its first error, and whether    *)
 (* each of them equalled the message the authentic peer wrote at that       *)
-(* position.                                                                *)
+(* position; "afterErr": how many further reads succeeded after that error. *)
 (***************************************************************************)
 EXTENDS CipherOps, Json, TLC
 
@@ -50,6 +50,9 @@ LineOK(ln) ==
     /\ ln.delivered <= ln.nmsgs
     /\ ln.delivered = Predicted(ln)          \* and exactly the predicted prefix
     /\ ln.errored = 1                        \* every stream ends in a read error
+    \* CipherStream's reader is fail-stop (Read requires ~failed): nothing is
+    \* returned as valid after the first error
+    /\ ln.afterErr = 0
 
 VARIABLE i
 Init == i = 1
